@@ -393,6 +393,10 @@ def cmp_render(case, what, got, exp, fails):
     eev, et = exp
     if gt == 'open':
         ok = gev == eev[:len(gev)] and len(gev) <= len(eev)
+    elif gt == et == 'err:RecursionError':
+        # where the interpreter's recursion limit strikes depends on the caller's stack depth
+        m = min(len(gev), len(eev))
+        ok = gev[:m] == eev[:m]
     else:
         ok = gev == eev and gt == et
     if not ok:
